@@ -5,13 +5,13 @@ go 1.23.0
 require (
 	github.com/xuri/efp v0.0.0-20250227110027-3491fafc2b79
 	github.com/xuri/excelize/v2 v2.0.0
+	github.com/xuri/nfp v0.0.0-20250226145837-86d5fc24b2ba
 )
 
 require (
 	github.com/richardlehane/mscfb v1.0.4 // indirect
 	github.com/richardlehane/msoleps v1.0.4 // indirect
 	github.com/tiendc/go-deepcopy v1.5.1 // indirect
-	github.com/xuri/nfp v0.0.0-20250226145837-86d5fc24b2ba // indirect
 	golang.org/x/crypto v0.36.0 // indirect
 	golang.org/x/net v0.38.0 // indirect
 	golang.org/x/text v0.23.0 // indirect
